@@ -1,7 +1,193 @@
-From Coq Require Import List Arith.
-Import ListNotations.
-From Onet Require Import Overlay.Robust Overlay.RobustProofs.
+(* C07 -- No peer input can crash, wedge or silence a server.
+   Statements only; proofs in Overlay/RobustProofs.v (model: Overlay/Robust.v) and
+   Overlay/RobustCheckProofs.v (checker of Corr/C07.v).
 
-Theorem c07_init_clean : leaked init = [].
-Proof. exact init_clean. Qed.
-Print Assumptions c07_init_clean.
+   [trace fx s ops] / [run fx s ops]: the results / the final state of a finite history
+   [ops] of envelopes handed to Overlay.Process (any of the seven registered message
+   types, every field optional / arbitrary) and local calls, started in state [s].
+   [all_fixed] = the model with the repairs F05 F06 F07 F08 F26 F70 F71 F72;
+   [only n] = all repairs but Fn; [none_fixed] = the code as pinned.
+   [Inv s] = no overlay mutex is left locked and every listed instance has its tree. *)
+From Coq Require Import List Arith Bool.
+Import ListNotations.
+From Onet Require Import Base.Corr Overlay.Robust Overlay.RobustProofs Corr.C07 Overlay.RobustCheckProofs.
+
+(* no crash, no wedge, no mutex left locked, lock discipline: for every finite history from
+   every state satisfying the invariant (in particular every reachable state) *)
+Theorem c07_no_crash_no_leak : forall ops s,
+  Inv s ->
+  Forall (fun r => r_out r = Ok /\ leaked (r_state r) = [] /\ disciplined (r_events r) = true)
+         (trace all_fixed s ops) /\
+  Inv (run all_fixed s ops).
+Proof. exact trace_safe. Qed.
+Print Assumptions c07_no_crash_no_leak.
+
+Theorem c07_reachable_inv : forall ops, Inv (run all_fixed init ops).
+Proof. exact reachable_inv. Qed.
+Print Assumptions c07_reachable_inv.
+
+(* one step: outcome, invariant, every table access under its mutex, stored trees untouched *)
+Theorem c07_lock_discipline : forall s o,
+  Inv s ->
+  r_out (step all_fixed s o) = Ok /\
+  Inv (r_state (step all_fixed s o)) /\
+  disciplined (r_events (step all_fixed s o)) = true /\
+  (forall id t, ~ touches o id -> lookup id (store s) = Some (Have t) ->
+                lookup id (store (r_state (step all_fixed s o))) = Some (Have t)).
+Proof. exact step_safe. Qed.
+Print Assumptions c07_lock_discipline.
+
+(* whatever peers send, a tree the server has keeps its content *)
+Theorem c07_known_tree_stays : forall ops s id t,
+  Inv s ->
+  (forall o, In o ops -> ~ touches o id) ->
+  lookup id (store s) = Some (Have t) ->
+  lookup id (store (run all_fixed s ops)) = Some (Have t).
+Proof. exact known_tree_stays. Qed.
+Print Assumptions c07_known_tree_stays.
+
+(* the next legitimate operation is served, in every state satisfying the invariant *)
+Theorem c07_still_serves_tree_request : forall s p nf id ver t,
+  Inv s -> lookup id (store s) = Some (Have t) -> reachable p = true ->
+  let r := step all_fixed s (Recv p false nf (MReqTree id ver)) in
+  r_out r = Ok /\
+  In (ESend p (if ver =? 0 then RTreeMarshal (t_id t) (ro_id (t_roster t)) (root_node t)
+               else RRespTree (t_id t) (ro_id (t_roster t)) (root_node t))) (r_events r).
+Proof. exact serves_tree_request. Qed.
+Print Assumptions c07_still_serves_tree_request.
+
+Theorem c07_still_serves_roster_request : forall s p nf rid i t,
+  Inv s -> In (i, Have t) (store s) -> ro_id (t_roster t) = rid -> reachable p = true ->
+  let r := step all_fixed s (Recv p false nf (MReqRoster rid)) in
+  r_out r = Ok /\ In (ESend p (RRoster rid)) (r_events r).
+Proof. exact serves_roster_request. Qed.
+Print Assumptions c07_still_serves_roster_request.
+
+Theorem c07_still_serves_protocol_message : forall s p nf from k t f,
+  Inv s -> lookup (tk_tree k) (store s) = Some (Have t) ->
+  will_deliver s t (mkP p from k BPing) f ->
+  let r := step all_fixed s (Recv p false nf (MProto from (Some k) BPing)) in
+  r_out r = Ok /\ In (EDeliver k (tk_node f)) (r_events r).
+Proof. exact serves_protocol_message. Qed.
+Print Assumptions c07_still_serves_protocol_message.
+
+Example c07_will_deliver_satisfiable :
+  will_deliver (run all_fixed init [LocalTree T1]) T1 (mkP 1 (Some (kfrom 1 90 1)) (kx 1 90) BPing) (kfrom 1 90 1).
+Proof. exact will_deliver_example. Qed.
+Print Assumptions c07_will_deliver_satisfiable.
+
+(* a run on a tree the server lacks: the sender is asked (even if others were asked before) ... *)
+Theorem c07_asks_sender_for_tree : forall s p nf from k b,
+  Inv s -> b <> BGarbage -> reachable p = true ->
+  (lookup (tk_tree k) (store s) = None \/
+   exists asked, lookup (tk_tree k) (store s) = Some (Req asked) /\ mem_nat p asked = false) ->
+  let r := step all_fixed s (Recv p false nf (MProto from (Some k) b)) in
+  r_out r = Ok /\
+  In (ESend p (RReqTree (tk_tree k))) (r_events r) /\
+  In (mkP p from k b) (parked (r_state r)) /\
+  exists asked', lookup (tk_tree k) (store (r_state r)) = Some (Req asked').
+Proof. exact asks_sender_for_tree. Qed.
+Print Assumptions c07_asks_sender_for_tree.
+
+(* ... and the answer stores the tree and hands the parked message to its handler *)
+Theorem c07_still_serves_after_tree_arrives : forall s p nf tm ro t pm f asked,
+  Inv s -> tm_tree tm <> 0 -> make_tree all_fixed tm ro = MTOk t ->
+  lookup (t_id t) (store s) = Some (Req asked) ->
+  filter (fun pm => tk_tree (p_to pm) =? t_id t) (parked s) = [pm] ->
+  will_deliver s t pm f ->
+  let r := step all_fixed s (Recv p false nf (MRespTree (Some tm) (Some ro))) in
+  r_out r = Ok /\
+  lookup (t_id t) (store (r_state r)) = Some (Have t) /\
+  In (EDeliver (p_to pm) (tk_node f)) (r_events r).
+Proof. exact serves_after_tree_arrives. Qed.
+Print Assumptions c07_still_serves_after_tree_arrives.
+
+Example c07_served_when_unforged :
+  existsb (fun r => delivered (kx 2 12) (r_events r))
+          (trace all_fixed init [ping 1 2 12 1; Recv 1 false false (MRespTree (Some tm2) (Some roG))]) = true /\
+  lookup 2 (store (run all_fixed init [ping 1 2 12 1; Recv 1 false false (MRespTree (Some tm2) (Some roG))])) = Some (Have T2).
+Proof. exact served_when_unforged. Qed.
+Print Assumptions c07_served_when_unforged.
+
+(* the code without one repair: a witness history each *)
+Theorem c07_f05_refuted :
+  exists ops, In (Crashed CNilTo) (outs (only 5) ops) /\ ~ In (Crashed CNilTo) (outs all_fixed ops).
+Proof. exact f05_refuted. Qed.
+Print Assumptions c07_f05_refuted.
+
+Theorem c07_f06_refuted :
+  exists ops, In (Crashed CNoChildren) (outs (only 6) ops) /\ outs all_fixed ops = [Ok; Ok].
+Proof. exact f06_refuted. Qed.
+Print Assumptions c07_f06_refuted.
+
+Theorem c07_f06_deprecated_refuted :
+  exists ops, In (Crashed CNoChildren) (outs (only 6) ops) /\
+              leaked (run (only 6) init ops) = [LPTree] /\ outs all_fixed ops = [Ok; Ok; Ok].
+Proof. exact f06_deprecated_refuted. Qed.
+Print Assumptions c07_f06_deprecated_refuted.
+
+Theorem c07_f07_refuted :
+  exists ops, In (Crashed CNilTreeInStore) (outs (only 7) ops) /\ outs all_fixed ops = [Ok; Ok].
+Proof. exact f07_refuted. Qed.
+Print Assumptions c07_f07_refuted.
+
+Theorem c07_f08_refuted :
+  exists ops, leaked (run (only 8) init ops) = [LPTree] /\
+              outs (only 8) (ops ++ ops) = [Ok; Wedged LPTree] /\
+              outs all_fixed (ops ++ ops) = [Ok; Ok].
+Proof. exact f08_refuted. Qed.
+Print Assumptions c07_f08_refuted.
+
+Theorem c07_f26_refuted :
+  exists ops, existsb (fun r => negb (disciplined (r_events r))) (trace (only 26) init ops) = true /\
+              existsb (fun r => negb (disciplined (r_events r))) (trace all_fixed init ops) = false.
+Proof. exact f26_refuted. Qed.
+Print Assumptions c07_f26_refuted.
+
+Theorem c07_f70_refuted :
+  exists ops, In (Crashed CNilPublic) (outs (only 70) ops) /\ outs all_fixed ops = [Ok; Ok].
+Proof. exact f70_refuted. Qed.
+Print Assumptions c07_f70_refuted.
+
+Theorem c07_f71_refuted :
+  exists ops o, r_out (step (only 71) (run (only 71) init ops) o) = Ok /\
+                sent 2 (RReqTree 3) (r_events (step (only 71) (run (only 71) init ops) o)) = false /\
+                sent 2 (RReqTree 3) (r_events (step all_fixed (run all_fixed init ops) o)) = true.
+Proof. exact f71_refuted. Qed.
+Print Assumptions c07_f71_refuted.
+
+Theorem c07_f72_refuted :
+  exists ops o, lookup 1 (store (run (only 72) init ops)) <> Some (Have T1) /\
+                delivered (kx 1 90) (r_events (step (only 72) (run (only 72) init ops) o)) = false /\
+                lookup 1 (store (run all_fixed init ops)) = Some (Have T1) /\
+                delivered (kx 1 90) (r_events (step all_fixed (run all_fixed init ops) o)) = true.
+Proof. exact f72_refuted. Qed.
+Print Assumptions c07_f72_refuted.
+
+(* recorded, not repaired: a forged answer to a pending tree request is stored *)
+Theorem c07_f73_forged_requested_tree :
+  exists ops, lookup 2 (store (run all_fixed init ops)) <> Some (Have T2) /\
+              existsb (fun r => delivered (kx 2 12) (r_events r)) (trace all_fixed init ops) = false /\
+              outs all_fixed ops = [Ok; Ok; Ok].
+Proof. exact f73_forged_requested_tree. Qed.
+Print Assumptions c07_f73_forged_requested_tree.
+
+Theorem c07_pinned_code_refuted :
+  In (Crashed CNilTo) (outs none_fixed [Recv 3 false false (MProto (Some (kfrom 1 20 1)) None BPing)]) /\
+  In (Crashed CNoChildren) (outs none_fixed [ping 1 2 12 1; Recv 3 false false (MRespTree (Some (mkTMar 2 1 [])) (Some roG))]) /\
+  In (Crashed CNilTreeInStore) (outs none_fixed [ping 1 2 12 1; Recv 3 false false (MReqRoster 9)]) /\
+  leaked (run none_fixed init [Recv 3 false false (MRoster roH)]) = [LPTree].
+Proof. exact pinned_code_refuted. Qed.
+Print Assumptions c07_pinned_code_refuted.
+
+(* the checker evaluated on the implementation's observations is the property *)
+Theorem c07_check_sound : forall ops os,
+  check (mkCase ops os) = [] <->
+  no_panic os /\ nothing_held os /\ canaries_served true ops os [] /\ canaries_served false ops os [].
+Proof. exact check_history_sound. Qed.
+Print Assumptions c07_check_sound.
+
+Theorem c07_check_stress_sound : forall aborted free_scans,
+  check (mkStress aborted free_scans) = [] <-> aborted = false /\ free_scans = false.
+Proof. exact check_stress_sound. Qed.
+Print Assumptions c07_check_stress_sound.
